@@ -95,9 +95,14 @@ def check_roundtrip(g, inst, ss, label):
 
 
 def h_arr(n, p2, p3, h1, h2, h3, top, share, ss, marker, nondict):
+    with notrace():
+        return _h_arr(n, p2, p3, h1, h2, h3, top, share, ss, marker, nondict)
+
+
+def _h_arr(n, p2, p3, h1, h2, h3, top, share, ss, marker, nondict):
     snap = pk.snapshot()
     try:
-        n = 1 + _c(n - 1, 4)
+        n = max(1, _c(n, 5))
         p2, p3 = _c(p2, 2), _c(p3, 3)
         hs = [0, _c(h1, 5), _c(h2, 5), _c(h3, 5)]
         top, share, ss, marker, nondict = _c(top, 4), _c(share, 4), _c(ss, 2), _c(marker, 2), _c(nondict, 2)
